@@ -266,6 +266,10 @@ class Write(Contract):
             st = bound['self'].attrs['stream']
             st.buf = M.mk_str(z3.Concat(M.sym_str(st.buf), fns.Wt(thing.e)))
             return M.mk_bool(fns.We(thing.e))
+        if not isinstance(I.active, type(self)):
+            # a concrete fragment written from another function: that caller interprets Writer.write itself
+            from pyvc.interp import InlineInstead
+            raise InlineInstead()
         return Contract.apply_at_call(self, I, bound, site, frame)
 
     def case_in_property(self, case, pid):
@@ -514,5 +518,5 @@ class DirectoryRule(Contract):
 
 def registry():
     from contracts import posix_shell
-    from contracts import lists
-    return posix_shell.registry() + [EscapeStr(), Write(), DirectoryRule(), lists.Tween(), lists.MakeWriteEach(), lists.MakeWriteShell()]
+    from contracts import lists, buildfile
+    return posix_shell.registry() + [EscapeStr(), Write(), DirectoryRule(), lists.Tween(), lists.MakeWriteEach(), lists.MakeWriteShell()] + buildfile.make_registry()
